@@ -97,11 +97,15 @@ def table_cases(tier):
                     continue
                 if kind == "same-missing" and side == "right":
                     continue
-                x = ("r.nope %s %s" % (op, src)) if side == "left" else ("%s %s r.nope" % (src, op))
-                for cname, ctpl, _ in CONTEXTS:
-                    for engine in ("interpreted", "compiled"):
-                        cases.append({"op": op, "side": side, "other": kind, "ctx": cname, "engine": engine,
-                                      "expr": ctpl.format(X=x)})
+                # the missing field bare, and passed through the case helpers (which hand a missing field through)
+                for form, m in (("bare", "r.nope"), ("lower", "lower(r.nope)"), ("upper", "upper(r.nope)")):
+                    x = ("%s %s %s" % (m, op, src)) if side == "left" else ("%s %s %s" % (src, op, m))
+                    for cname, ctpl, _ in CONTEXTS:
+                        if form != "bare" and cname not in ("bare", "not", "X-or-F"):
+                            continue
+                        for engine in ("interpreted", "compiled"):
+                            cases.append({"op": op, "side": side, "other": kind, "ctx": cname, "engine": engine,
+                                          "form": form, "expr": ctpl.format(X=x)})
     return cases
 
 
@@ -129,7 +133,8 @@ def check_row(case, ctx):
     rec = the_record()
     expected = [f for n, _, f in CONTEXTS if n == case["ctx"]][0](False)
     ctx.nontriv()
-    ctx.cls("op:" + case["op"], "engine:" + case["engine"], "ctx:" + case["ctx"], "side:" + case["side"])
+    ctx.cls("op:" + case["op"], "engine:" + case["engine"], "ctx:" + case["ctx"], "side:" + case["side"],
+            "missing-operand:" + case.get("form", "bare"))
     sel = impl(make, case["engine"], case["expr"])
     if not sel.ok:
         raise Violation(row_sig(case, "compile-raised:" + sel.type), "%s: %r" % (case["expr"], sel))
